@@ -23,10 +23,10 @@ MANIFEST = dict(
          "memory safety). Assertions are compiled in.",
     ref="DESIGN.md §5 C13")
 
-TARGETS = ["manifest", "depfile", "dyndep", "buildlog", "depslog", "clparser", "makeflags", "status", "elide", "stripansi", "json",
+TARGETS = ["manifest", "depfile", "depfileload", "dyndep", "buildlog", "depslog", "clparser", "makeflags", "status", "elide", "stripansi", "json",
            "canon", "editdistance"]
 # max tokens for the exhaustive sweep (quick, thorough)
-EXH = {"manifest": (4, 5), "dyndep": (3, 4), "depfile": (5, 6), "buildlog": (5, 6), "clparser": (5, 6), "makeflags": (5, 6),
+EXH = {"manifest": (4, 5), "dyndep": (3, 4), "depfile": (5, 6), "depfileload": (4, 5), "buildlog": (5, 6), "clparser": (5, 6), "makeflags": (5, 6),
        "status": (4, 5), "stripansi": (5, 6), "elide": (5, 6), "canon": (6, 8)}
 
 
@@ -158,7 +158,7 @@ def seeds_for(rng, target, n):
                 txt = txt + "\n---\n" + "rule zz\n  command = zz $in\nx = 1\n" + "\n---\n" + "include a.ninja\n"
                 txt = ("include a.ninja\nsubninja b.ninja\n" if rng.random() < 0.5 else "subninja a.ninja\n") + txt
             out.append(txt.encode("latin-1"))
-    elif target == "depfile":
+    elif target in ("depfile", "depfileload"):
         for k in range(n):
             T = [bytes(rng.choice(b"ab/. \\#$:%") for _ in range(rng.randint(1, 9)))]
             D = [bytes(rng.choice(b"ab/. \\#$:%c") for _ in range(rng.randint(1, 12))) for _ in range(rng.randint(0, 6))]
@@ -303,7 +303,7 @@ def replay_corpus(ctx, quick, rng, keep_dir):
 def libfuzzer(ctx, quick, corpus_root=None):
     b = lf_bin()
     runs = 150000 if quick else 4000000
-    big = {"manifest": 400, "dyndep": 300, "depfile": 300, "buildlog": 600, "depslog": 400, "clparser": 300, "makeflags": 120, "status": 80,
+    big = {"manifest": 400, "dyndep": 300, "depfile": 300, "depfileload": 300, "buildlog": 600, "depslog": 400, "clparser": 300, "makeflags": 120, "status": 80,
            "elide": 200, "stripansi": 100, "json": 100, "canon": 200, "editdistance": 60}
     jobs = []
     per = 1 if quick else 3
@@ -315,7 +315,7 @@ def libfuzzer(ctx, quick, corpus_root=None):
         t, seed = job
         d = util.scratch("nfuzz-lf-")
         try:
-            rc, out, err, to = util.run([b, "-runs=%d" % (runs if t in ("manifest", "dyndep", "depslog", "buildlog", "depfile") else runs // 3),
+            rc, out, err, to = util.run([b, "-runs=%d" % (runs if t in ("manifest", "dyndep", "depslog", "buildlog", "depfile", "depfileload") else runs // 3),
                                          "-max_len=%d" % big[t], "-seed=%d" % seed, "-timeout=20", "-rss_limit_mb=3000", "-print_final_stats=1",
                                          "-artifact_prefix=%s/" % d, "-verbosity=0", d] +
                                         ([os.path.join(corpus_root, t)] if corpus_root and os.path.isdir(os.path.join(corpus_root, t)) else []),
